@@ -24,6 +24,10 @@ type c09Step struct {
 
 type c09Case struct {
 	Steps []c09Step `json:"steps"`
+	// LingerMs > 0: at the end one connection sends a request whose handler answers and then keeps running for that
+	// long; the client closes at once, new connections are opened while the handler still runs, and the handler
+	// asks for its ConnectionID again afterwards: "stable per connection" holds for as long as a handler has the request
+	LingerMs int `json:"linger_ms,omitempty"`
 }
 
 type c09Slot struct {
@@ -49,6 +53,14 @@ func c09Exec(c c09Case, st *lab.Stats) *lab.Fail {
 		seenByTag[tag][r.ConnectionID()] = true
 		mu.Unlock()
 		_ = respondOK(w, r)
+		if id%tagStride == 777777 && c.LingerMs > 0 {
+			for k := 0; k < 10; k++ {
+				time.Sleep(time.Duration(c.LingerMs/10) * time.Millisecond)
+				mu.Lock()
+				seenByTag[tag][r.ConnectionID()] = true
+				mu.Unlock()
+			}
+		}
 	}
 	pki, _, perr := lab.SharedPKI()
 	if perr != nil {
@@ -350,6 +362,53 @@ func c09Exec(c c09Case, st *lab.Stats) *lab.Fail {
 			sawClose = true
 		}
 	}
+	if c.LingerMs > 0 && len(open) > 0 {
+		st.Class("handler-outlives-its-connection")
+		s := open[0]
+		open = open[1:]
+		lid := int64(s.tag)*tagStride + 777777
+		if err := s.cl.Send(simpleReq("search", lid).Bytes()); err != nil {
+			return lab.Failf("request-failed", "tag %d: send: %v", s.tag, err)
+		}
+		if m, err := s.cl.Next(10 * time.Second); err != nil || m.ID != lid {
+			return lab.Failf("request-failed", "tag %d: no answer to the lingering request: %v", s.tag, err)
+		}
+		s.cl.Close()
+		// new connections arrive while the handler of the closed one is still running
+		for k := 0; k < 4; k++ {
+			time.Sleep(time.Duration(c.LingerMs/5) * time.Millisecond)
+			if len(open) < 64 {
+				if f := openOne(); f != nil {
+					return f
+				}
+			}
+		}
+		time.Sleep(time.Duration(c.LingerMs/4) * time.Millisecond)
+		mu.Lock()
+		var got []int
+		for k := range seenByTag[s.tag] {
+			got = append(got, k)
+		}
+		mu.Unlock()
+		if len(got) != 1 {
+			return lab.Failf("connection-id-unstable", "connection tag %d: a handler that kept running %d ms after its client had closed (while new connections were accepted) saw its request report ConnectionIDs %v", s.tag, c.LingerMs, got)
+		}
+		// its OnClose comes once the handler has returned
+		dl := time.After(15 * time.Second)
+		for done := false; !done; {
+			mu.Lock()
+			done = closedIDs[s.id] >= 1
+			mu.Unlock()
+			if done {
+				break
+			}
+			select {
+			case <-onclose:
+			case <-dl:
+				return lab.Failf("onclose-wrong-id", "connection tag %d (ConnectionID %d): OnClose was not called within 15 s after its lingering handler returned", s.tag, s.id)
+			}
+		}
+	}
 	// final: OnClose delivered exactly the IDs of the closed connections, once each
 	mu.Lock()
 	defer mu.Unlock()
@@ -375,7 +434,7 @@ func c09Exec(c c09Case, st *lab.Stats) *lab.Fail {
 func TestC09(t *testing.T) {
 	lab.Prop[c09Case]{
 		ID: "C09", Part: "ids",
-		Rule: "rapid action sequences (up to 60 steps) over ONE long-lived server: open / open several at once / request (any operation) / long session of 20..300 pipelined requests / StartTLS upgrade of an open connection / concurrent burst on all open connections / close (FIN, RST, Unbind; waits for OnClose) / a silent connection that connects and closes without a request (FIN, RST, half a frame + FIN; its ID is the one OnClose reports) / a second gldap server that starts, serves 0..3 connections and stops in the same process, up to 64 connections open at once; model = tag -> ConnectionID map: every request of a connection reports the same positive ID, IDs are pairwise different over the server's whole life (also after closes), OnClose delivers exactly the closed connection's ID, once; non-trivial = the sequence contains a close followed by an open while another connection is still open; distinct by hash",
+		Rule: "rapid action sequences (up to 60 steps) over ONE long-lived server: open / open several at once / request (any operation) / long session of 20..300 pipelined requests / StartTLS upgrade of an open connection / concurrent burst on all open connections / close (FIN, RST, Unbind; waits for OnClose) / a silent connection that connects and closes without a request (FIN, RST, half a frame + FIN; its ID is the one OnClose reports) / a second gldap server that starts, serves 0..3 connections and stops in the same process, up to 64 connections open at once; about one sequence in 50 ends with a handler that keeps running 1.5..6 s after its client closed, while new connections are accepted, and asks for its ConnectionID again; model = tag -> ConnectionID map: every request of a connection reports the same positive ID, IDs are pairwise different over the server's whole life (also after closes), OnClose delivers exactly the closed connection's ID, once; non-trivial = the sequence contains a close followed by an open while another connection is still open; distinct by hash",
 		Gen: func(t *rapid.T) c09Case {
 			var c c09Case
 			n := rapid.IntRange(2, 60).Draw(t, "nsteps")
@@ -397,6 +456,9 @@ func TestC09(t *testing.T) {
 					s.N = rapid.SampledFrom([]int{20, 99, 100, 101, 150, 300}).Draw(t, "nreq")
 				}
 				c.Steps = append(c.Steps, s)
+			}
+			if rapid.IntRange(0, 49).Draw(t, "linger") == 23 {
+				c.LingerMs = rapid.SampledFrom([]int{1500, 4000, 6000}).Draw(t, "lingerms")
 			}
 			return c
 		},
